@@ -124,6 +124,62 @@ def _tracked_mut(ty):
     return any(s.endswith(x) for x in ("counters::AppCounters", "planes::Planes", "plane::Plane"))
 
 
+def _bypassed_gate(facts, rep):
+    """The reader accepts lines through something other than `get_message`.  One thing can still be decided: if a function
+    called on the way to the table update gets a `&mut` to state that lives across iterations, then every line - accepted or
+    not - can leave a trace there (a rejected line then changes how later lines are treated).  -> True if reported."""
+    from ..cfg import CFG
+    from ..tableupd import describe
+    try:
+        upd = describe(facts)["body"].name
+    except Broken:
+        return False
+    found = False
+    n = 0
+    for b in sorted(facts.bodies.values(), key=lambda x: x.name):
+        if b.kind == "promoted" or "::tests::" in b.name:
+            continue
+        ups = [bb for bb, t in b.calls() if callee_name(t) == upd]
+        if not ups:
+            continue
+        cfg = CFG(b)
+        du = DefUse(b)
+        for h, blks in cfg.loops().items():
+            if ups[0] not in blks:
+                continue
+            blks = set(blks)
+            for bi in sorted(blks):
+                t = b.blocks[bi]["term"]
+                if t["k"] != "call" or callee_name(t) not in facts.bodies or not cfg.dominates(bi, ups[0]) or bi == ups[0]:
+                    continue
+                for a in t["args"]:
+                    pl = operand_place(a)
+                    if pl is None:
+                        continue
+                    ds = du.whole_defs(pl["local"])
+                    if len(ds) != 1 or ds[0][0] != "stmt" or ds[0][3]["rv"]["k"] != "ref" or not ds[0][3]["rv"].get("mut"):
+                        continue
+                    from ..linebuf import _mut_base
+                    base = _mut_base(du, a)
+                    if base is None:
+                        continue
+                    bds = du.whole_defs(base)
+                    n += 1
+                    if base > b.arg_count and bds and all(d[1] not in blks for d in bds):
+                        nm = b.locals[base].get("name") or "_%d" % base
+                        found = True
+                        rep.oblige(False, ("bypass-state", bi))
+                        rep.add(Finding("R13.2", "%s : call %s before the table update gets &mut of loop-carried `%s`" % (b.name, callee_name(t), nm),
+                                        "the reader does not accept lines through get_message; %s, called for every line on the way to the table "
+                                        "update, can write `%s`, which lives across iterations: a line that is rejected can leave a trace that "
+                                        "changes how later lines are processed" % (callee_name(t), nm), span_loc(t.get("span"))))
+    if found:
+        rep.instances("R13.1", 1, floor=0)
+        rep.instances("R13.2", n, floor=1, what="&mut arguments of per-line calls (reader without get_message)")
+        rep.instances("R13.3", 1, floor=0)
+    return found
+
+
 def run(facts, rep, tier):
     rep.explanation = (
         "Structural proof over the CFG of the per-line loop (found by role: the loop containing the call to "
@@ -137,7 +193,13 @@ def run(facts, rep, tier):
     rep.rule("R13.2", "no loop-carried state is written before the accept gates", "P")
     rep.rule("R13.3", "rejecting a line cannot panic: the gate is panic-free on every junk-line context (E2 obligations)", "P")
     eff = Effects(facts)
-    reg = Region(facts, eff)
+    from ..region import GateBypassed
+    try:
+        reg = Region(facts, eff)
+    except GateBypassed as ex:
+        if _bypassed_gate(facts, rep):
+            return
+        raise ex
     body, cfg, du = reg.loop_body, reg.loop_cfg, DefUse(reg.loop_body)
     lblocks = reg.loop_blocks
     exits = [(a, b) for a, b in cfg.loop_exits(lblocks) if body.blocks[b]["term"]["k"] != "unreachable"
